@@ -25,7 +25,7 @@ COMPONENTS = {
 }
 ASSUMPTIONS = ['an interrupted write_bytes leaves the entry missing, empty or a proper prefix (process-kill model)',
                'both branches see the same urandom stream and clock for the command, so any difference is the cache\'s']
-PROBES = ['pair', 'pair_cold_cache', 'cache_hit_possible', 'torn_prefix', 'torn_empty', 'torn_removed', 'shared_cache', 'second_repository', 'second_repository_other_kind', 'stale_entries', 'delete', 'clean']
+PROBES = ['pair', 'pair_cold_cache', 'cache_hit_possible', 'torn_prefix', 'torn_empty', 'torn_removed', 'torn_entry_old', 'shared_cache', 'second_repository', 'second_repository_other_kind', 'stale_entries', 'delete', 'clean']
 TIERS = {'quick': {'budget_s': 60, 'batch': 4}, 'thorough': {'budget_s': 900, 'batch': 8}}
 
 
@@ -62,13 +62,19 @@ def _save_dir(d):
     return {str(p.relative_to(d)): p.read_bytes() for p in _cache_files(d)} if Path(d).exists() else {}
 
 
-def _load_dir(d, content):
+def _load_dir(d, content, age=0):
+    """(Re)create the cache directory; `age` seconds ago is when its entries were last written -
+    caches live for months, and nothing may depend on how recently an entry was touched."""
+    import time as _time
     shutil.rmtree(d, ignore_errors=True)
     Path(d).mkdir(parents=True, exist_ok=True)
     for rel, data in content.items():
         p = Path(d, rel)
         p.parent.mkdir(parents=True, exist_ok=True)
         p.write_bytes(data)
+        if age:
+            t = _time.time() - age
+            os.utime(p, (t, t))
 
 
 def run_command(H, op, i, cache_dirs, use_cache):
@@ -307,7 +313,10 @@ def _run_case(case):
                     else:
                         torn[rel] = torn[rel][:ln]
                         H.probe('torn_prefix' if ln else 'torn_empty')
-                    _load_dir(cache_dirs[op['u']], torn)
+                    age = trng.choice([0, 0, 700, 86400, 10**7])
+                    if age:
+                        H.probe('torn_entry_old')
+                    _load_dir(cache_dirs[op['u']], torn, age)
                     a = run_command(H, op, i, cache_dirs, use_cache=True)
                     evaluations += 1
                     digests.add((op['op'], rel[-8:], ln, a['outcome']))
